@@ -4,6 +4,7 @@ import ast
 import enum
 import re
 import sys
+import unicodedata
 from collections.abc import Callable
 from typing import TYPE_CHECKING, Any, ClassVar, Literal, NoReturn, TypeVar, cast
 
@@ -276,7 +277,10 @@ class Parser:
     def name(self) -> TokenInfo | None:
         tok = self._tokenizer.peek()
         if tok.type == Token.NAME and tok.string not in self.KEYWORDS:
-            return self._tokenizer.getnext()
+            tok = self._tokenizer.getnext()
+            if not tok.string.isascii():  # PEP 3131: identifiers are compared after NFKC normalisation
+                tok = tok._replace(string=unicodedata.normalize("NFKC", tok.string))
+            return tok
         return None
 
     def keyword(self) -> TokenInfo | None:
